@@ -316,6 +316,9 @@ impl ThrCheck {
             "mutex.lock",
             "mutex.lock",
             "mutex.lock",
+            "rwlock.write",
+            "rwlock.write",
+            "rwlock.read",
             "cmd.wake.before_send",
             "cmd.wake.after_send",
             "cmd.wake.after_store",
